@@ -28,6 +28,9 @@ def run_cli(case):
         requested = os.path.join(odir, "sub", "req.torrent")
         os.makedirs(os.path.join(odir, "sub"))
         expected_out = requested if opts["O"] else os.path.join(odir, name + ".torrent")
+        if case.get("out_slash") and opts["O"]:        # -o names a directory (trailing separator)
+            requested = os.path.join(odir, "sub") + "/"
+            expected_out = os.path.join(odir, "sub", name + ".torrent")
         VALS = dict(globals()["VALS"])
         if case.get("comment_val"):
             VALS["C"] = case["comment_val"]
@@ -51,7 +54,8 @@ def run_cli(case):
             if route == "kw":
                 kw = {"path": root, "progress": 0, "meta_version": str(v)}
                 if opts["A"]:
-                    kw["announce"] = list(ann)
+                    # library callers may pass one tracker as a plain string
+                    kw["announce"] = ann[0] if (case.get("kw_str") and len(ann) == 1) else list(ann)
                 if opts["W"]:
                     kw["url_list"] = list(VALS["W"])
                 if opts["H"]:
@@ -119,19 +123,34 @@ def run_cli(case):
                     lines.append("align = true")
                 elif case.get("explicit_false"):
                     lines.append("align = false")
-                ini = os.path.join(sbx, "cfg.ini")
+                # where the file is: named with --config-path, or found in the documented default places
+                where = case.get("config_where", "path")
+                home = os.path.join(sbx, "home")
+                ini = {"path": os.path.join(sbx, "cfg.ini"), "cwd": os.path.join(odir, "torrentfile.ini"),
+                       "home": os.path.join(home, ".torrentfile", "torrentfile.ini"),
+                       "homeconfig": os.path.join(home, ".config", ".torrentfile", "torrentfile.ini")}[where]
+                os.makedirs(os.path.dirname(ini), exist_ok=True)
                 with open(ini, "w", encoding="utf-8") as fh:
                     fh.write("\n".join(lines) + "\n")
                 before = snapshot(sbx)
                 from torrentfile.cli import execute
-                execute(["create", "--config", "--config-path", ini, "--prog", "0", root])
+                home0 = os.environ.get("HOME")
+                os.environ["HOME"] = home
+                try:
+                    execute(["create", "--config"] + (["--config-path", ini] if where == "path" else []) + ["--prog", "0", root])
+                finally:
+                    if home0 is None:
+                        os.environ.pop("HOME", None)
+                    else:
+                        os.environ["HOME"] = home0
             else:
                 groups = {
                     "A": [case.get("announce_flag", "-a")] + list(ann), "W": ["--web-seed"] + VALS["W"],
                     "H": ["--http-seed"] + VALS["H"], "P": ["-p"], "S": ["-s", VALS["S"]], "C": ["-c", VALS["C"]],
                     "L": ["--piece-length", str(case["plen_arg"])], "V": ["--meta-version", str(v)],
                     "O": ["-o", requested], "G": ["--align"], "PATH": [root], "PROG": ["--prog", "0"]}
-                argv = list(case.get("pre", [])) + [case.get("spelling", "create")]
+                # "implicit": no command word at all (the front end then assumes create)
+                argv = list(case.get("pre", [])) + ([] if case.get("spelling") == "implicit" else [case.get("spelling", "create")])
                 for g in case["shape"]:
                     argv += groups[g]
                 if case.get("magnet_flag"):
